@@ -42,7 +42,8 @@ pub fn generate(prop: &str, seed: u64, run: u64, _thorough: bool) -> Scenario {
     }
     texts.push(base.clone());
     // the large file
-    let n = *rr.pick(&[40usize, 64, 130, 255, 256, 257, 258, 300]);
+    // (now and then one past a larger power of two: capacities are usually such numbers)
+    let n = if rr.chance(1, 10) { *rr.pick(&[513usize, 1025, 2049, 2100, 4097]) } else { *rr.pick(&[40usize, 64, 130, 255, 256, 257, 258, 300]) };
     let mut big = String::from("detection:\n  A:\n    f0:\n");
     for i in 0..n {
         big.push_str(&format!("    - '?^{}big{}y*$'\n", tag, i));
